@@ -72,10 +72,6 @@ func c40RunProgram(p c40Program, rec *kit.Rec) (*c40Outcome, error) {
 		return out, nil
 	}
 
-	if seed != nil {
-		seed.Detach() // returns at once when the path is gone
-	}
-
 	// final shutdown (a second Close() after a generated shutdown returns at once), watched like a step
 	hasStopper := false
 	for _, a := range p.Actors {
@@ -94,6 +90,9 @@ func c40RunProgram(p c40Program, rec *kit.Rec) (*c40Outcome, error) {
 		st := w.now()
 		fin.curStart.Store(st)
 		fin.cur.Store(0)
+		if seed != nil {
+			seed.Detach() // must return at once when the path is gone; watched like everything else
+		}
 		w.tr.CloseIdleConnections()
 		w.c.Stop()
 		fin.cur.Store(-1)
@@ -280,7 +279,7 @@ func c40Diagnose(stalled []*c40ActorRun, p c40Program, out *c40Outcome) {
 		if q.idx < len(p.Actors) && c >= 0 && c < len(p.Actors[q.idx].Steps) {
 			name = p.Actors[q.idx].Steps[c].String()
 		} else if q.kind == "final" {
-			name = "final Core.Close()"
+			name = "final: detach of the seed publisher, then Core.Close()"
 		}
 		desc = append(desc, fmt.Sprintf("A%d:%s step #%d %s", q.idx, q.kind, c, name))
 	}
